@@ -154,6 +154,35 @@ func checkC02(c *Ctx) (int, error) {
 		return 0, err
 	}
 	cases = append(cases, edges...)
+	// streams that go on for thousands of blocks without producing output, delivered byte by byte
+	// and all at once; distance codes that fill the decoder's long-code table to its last entry
+	var extra []namedStream
+	for _, k := range []int{900, 5000, 20000} {
+		b, want := manyEmptyBlocks(k)
+		if o := oracleFor("flate", b, nil, true); o.StdVerdict != "eof" || o.RefVerdict != "eof" || len(o.RefOut) != len(want) {
+			return 0, fmt.Errorf("oracle disagreement on %d empty blocks: std %s ref %s", k, o.StdVerdict, o.RefVerdict)
+		}
+		extra = append(extra, namedStream{name: fmt.Sprintf("emptyblocks%d", k), kind: "flate", s: RStream{Hex: hexOf(b)}})
+	}
+	for i := 0; i < 6; i++ {
+		b, want, err := fullDistTableStream(rng)
+		if err != nil {
+			return 0, err
+		}
+		if o := oracleFor("flate", b, nil, true); o.StdVerdict != "eof" || o.RefVerdict != "eof" || len(o.RefOut) != len(want) {
+			return 0, fmt.Errorf("oracle disagreement on the full distance table stream: std %s ref %s", o.StdVerdict, o.RefVerdict)
+		}
+		extra = append(extra, namedStream{name: fmt.Sprintf("fulldisttable%d", i), kind: "flate", s: RStream{Hex: hexOf(b)}})
+	}
+	for xi, st := range extra {
+		for _, arch := range c.Levels {
+			for si, ch := range [][]int{{1}, {0}, {5}} {
+				cases = append(cases, &RCase{ID: fmt.Sprintf("C02-x%d-%d@A%d", xi, si, arch), Kind: "flate", Arch: arch, Tag: st.name,
+					Segs: []RSeg{{Stream: st.s, Src: plainSrc(ch), Reads: [][]int{{4096}, {1 << 20}, {7}}[si], Multi: true}}})
+			}
+		}
+		c.ev.nontrivial(st.name)
+	}
 	for i, st := range streams {
 		for _, arch := range c.Levels {
 			src := plainSrc(chunkSchedules[(i+arch)%len(chunkSchedules)])
